@@ -7,7 +7,7 @@ from . import common
 PROP = "C04"
 LEVEL = "model_checking"
 RULE = (
-    "X-ENUM over REG (k = 1..20 simultaneously live values x 11 lifetime shapes), FUNC, LIST and a CTRL sub-family under the four "
+    "X-ENUM over REG (k = 1..20 simultaneously live values x 11 lifetime shapes), FUNC, FUNC2, FUNC3 (call depth 4), LIB (library module-level registers), LIST, DEV and a CTRL sub-family under the four "
     "calling-convention vectors (inline x push/pop); X-RUN executes every distinct emitted program for every device answer sequence "
     "with the TAGS monitor attached: every register read through an operand that was virtual register v before allocation must find "
     "the value last written through v (shadow tags per physical register), plus equal traces from zeroed and poisoned registers and "
@@ -28,8 +28,15 @@ def build_cases(tier):
     for c in F.reg(tier):
         fam = "W-F04a" if c["shape"] == "refid-struct" else "REG"  # register-held device id in a function scope: F-04a
         cases.append(dict(c, family=fam, variants=CONV, reject_must_match=r"(?i)register", static=["regs"]))
-    for c in F.func(tier):
+    for c in F.func(tier) + F.func2(tier)[:: (3 if tier == "quick" else 1)]:
+        for cc in common.split_call_case(c, CONV):
+            cases.append(dict(cc, static=["regs"]))
+    for c in F.func3(tier):
         cases.append(dict(c, variants=CONV, static=["regs"]))
+    # multi-module programs: library module-level values live in registers across every call
+    for c in F.lib(tier)[:: (2 if tier == "quick" else 1)]:
+        for cc in common.split_lib_case(c, CONV):
+            cases.append(dict(cc, static=["regs"]))
     for c in F.lists(tier, lens=range(2, 6)):
         cases.append(dict(c, variants=CONV, static=["regs"]))
     ctrl = F.ctrl("quick")
